@@ -3,8 +3,10 @@ package props
 import (
 	"fmt"
 	"path/filepath"
+	"math/rand"
 	"runtime"
 	"sync"
+	"time"
 	"unsafe"
 
 	"github.com/couchbase/nitro"
@@ -76,7 +78,40 @@ func c07Restore(c *rt.C, mem string) {
 	}
 	h.Snaps = nil
 	dir := filepath.Join(c.Tmp, "bk")
-	if err := db.N.StoreToDisk(dir, target.S, pick(r, 1, 4), nil); err != nil { // consumes the reference
+	// with delta interleaving a churn goroutine deletes items and cycles snapshots during the backup, so
+	// that the collection workers write delta items (and some items end up in a data and a delta shard)
+	stopChurn := make(chan struct{})
+	var cwg sync.WaitGroup
+	if delta && nk > 0 {
+		cwg.Add(1)
+		go func() {
+			defer cwg.Done()
+			defer func() { recover() }()
+			cr := rand.New(rand.NewSource(c.Seed ^ 0xc07))
+			for i := 0; i < 200; i++ {
+				select {
+				case <-stopChurn:
+					return
+				default:
+				}
+				h.Mutate(cr, 1+nkk/3, 70)
+				s, _ := db.N.NewSnapshot()
+				s.Close()
+				db.N.GC()
+			}
+		}()
+	}
+	ncb := 0
+	err := db.N.StoreToDisk(dir, target.S, pick(r, 1, 4), func(*nitro.ItemEntry) { // consumes the reference
+		ncb++
+		if delta && ncb%2 == 0 {
+			runtime.Gosched()
+			time.Sleep(100 * time.Microsecond)
+		}
+	})
+	close(stopChurn)
+	cwg.Wait()
+	if err != nil {
 		c.Inconclusive("StoreToDisk failed: " + err.Error())
 		return
 	}
@@ -111,7 +146,10 @@ func c07Restore(c *rt.C, mem string) {
 	fresh.N.Close()
 	db.N.Close()
 	a := db.A
-	witness := map[string]interface{}{"mem": mem, "delta": delta, "kv": kv, "keys": nk, "items_stored": len(target.Want), "alloc": a.Stats()}
+	witness := map[string]interface{}{"mem": mem, "delta": delta, "kv": kv, "keys": nk, "items_stored": len(target.Want), "alloc": a.Stats(),
+		"delta_items_restored": fresh.N.DeltaRestored, "delta_items_rejected_as_duplicates": fresh.N.DeltaRestoreFailed}
+	c.Count("delta_items_rejected_as_duplicates", int64(fresh.N.DeltaRestoreFailed))
+	c.Count("delta_items_restored", int64(fresh.N.DeltaRestored))
 	reportAlloc(c, a, witness, "after closing the original and the restored instance")
 	c.Sig("restore/delta=%v/n=%s/mem=%s/writer-before-load=%v", delta, sizeClass(len(target.Want)), mem, early != nil)
 	c.Sample(witness)
